@@ -19,7 +19,7 @@ MALFORMED = {
     "all_zero": [b"*0000000000000000000000000000;\n", b"*00000000000000;\n"],
     "undecodable_df": [b"*10FFFFFFFFFFFF;\n", b"*B8AAAAAAAAAAAAAAAAAAAAAAAAAA;\n"],
     "truncated_frame": [b"*8D4840D6;\n", b"*8D4840D6202CC371C32CE0;\n"],
-    "long_line": [b"*" + b"10" * 2048 + b";\n", b"*" + b"ZY" * 2048 + b";\n", b"*" + b"8" * 4097 + b";\n"],
+    "long_line": [b"*" + b"10" * 2048 + b";\n", b"*" + b"ZY" * 2048 + b";\n", b"*" + b"8" * 4097 + b";\n", b"Z" * 70000 + b"\n", b"*" + b"8D" * 100000 + b";\n", b"\x00" * 9000 + b"\n"],
     "crlf": [b"*8DABCDEF0000000000000000000000;\r\n"],
     "no_star": [b"8D4840D6202CC371C32CE0576098;\n"],
     "misplaced_markers": [b";*\n", b"abc;def*gh\n", b"*8D4840D6202CC371C32CE0576098;*8D40\n", b"**;;\n", b";\r\n", b"*;*;\n", b"* ;\n"],
@@ -65,7 +65,12 @@ def soup(rng):
         n = rng.randint(1, 12)
         out.append(bytes(rng.choice(SOUP_ALPHABET) for _ in range(n)) + b"\n")
     return out
-SEGMENTATIONS = ["per_line", "all_at_once", "per_byte", "random_cuts", "cut_after_star", "cut_in_hex", "cut_before_semicolon", "cut_before_newline", "three_lines"]
+# One over-long line whose last 31 bytes read like a frame line of the ghost: "<junk>*<hex>;\n" is
+# one malformed line however it is cut and however long the sender pauses inside it; a client that
+# gives up on the head of the line (a buffer bound, a timeout) must not take the tail for a frame.
+MALFORMED["long_line_frame_tail"] = [junk + b"*" + GHOST_HEX + b";\n" for junk in
+    (b"x" * 1100, b"*" + b"8D" * 750, b"x" * 5000, b"y" * 33, b"*8D4840D6202CC371C32CE0576098;" * 40, b"z" * 66000, b"*" + b"00" * 40000)]
+SEGMENTATIONS = ["per_line", "all_at_once", "per_byte", "random_cuts", "cut_after_star", "cut_in_hex", "cut_before_semicolon", "cut_before_newline", "three_lines", "cut_before_tail"]
 SENTINEL = 0xFFFFF0
 DELAYS = {"none": (0, 0), "lt_timeout": (0.005, 0.030), "near_timeout": (0.045, 0.055), "gt_timeout": (0.070, 0.150)}
 
@@ -102,6 +107,14 @@ def build_feed(rng, n_lines, malformed, limit_parsing=False):
             # incl. the military format (decodes, renders nothing) and the Comm-D range
             enc.setbits(m, 1, 5, rng.choice([16, 20, 21, 24, 19, 19, 27, 31]))
             lines.append(("other", enc.line(bytes(m)), None, None))
+        # a feeder that merges receivers passes the same squitter on more than once: a line that
+        # repeats the one before it (or an earlier one) is a line like any other
+        if lines[-1][0] == "good" and (rng.random() < 0.08 or k == n_lines // 2):
+            lines.append(lines[-1])
+        elif rng.random() < 0.04:
+            earlier = [l for l in lines if l[0] == "good"]
+            if earlier:
+                lines.append(rng.choice(earlier))
         if bad and rng.random() < 0.25:
             lines.append(("bad", bad[n_bad % len(bad)] if len(bad) >= 3 else rng.choice(bad), None, None))
             n_bad += 1
@@ -155,6 +168,9 @@ def segment(rng, lines, seg_kind, delay_kind):
                 c = s + 1
             elif seg_kind == "cut_in_hex":
                 c = s + max(1, ln // 2)
+            elif seg_kind == "cut_before_tail":
+                # long lines: right before their last 31 bytes (the length of a frame line)
+                c = e - 31 if ln > 40 else s + max(1, ln // 2)
             elif seg_kind == "cut_before_semicolon":
                 c = e - 2
             else:  # cut_before_newline
@@ -382,7 +398,8 @@ def check_radar(col, binpath, rng, tag, seg_kind, delay_kind, malformed, disconn
         opts.append("--limit-parsing")
     plan = steps + [("mark", "feed_done")]
     lines2, expect2 = [], {}
-    if disconnect in ("retry", "retry_midline", "retry_backlog", "retry_reset"):
+    retrying = disconnect in ("retry", "retry_midline", "retry_backlog", "retry_reset")
+    if retrying:
         opts.append("--retry-tcp")
         # second connection: more lines for the same aircraft; counts must continue
         addrs = list(expect.keys())
@@ -393,22 +410,22 @@ def check_radar(col, binpath, rng, tag, seg_kind, delay_kind, malformed, disconn
         lines2.append(("good", enc.line(enc.long_frame(17, 5, SENTINEL, enc.me_ident(4, 0, "ENDFEED"))), SENTINEL, "ENDFEED"))
         if disconnect == "retry_midline":
             # the connection drops in the middle of a line: what was received of it must not leak into the next connection
-            plan += [("sleep", 3.0), ("send", b"*8D4840D6202C"), ("sleep", 0.3), ("close",), ("sleep", rng.choice([0.1, 0.5])), ("accept", 25.0)]
+            plan += [("wait_for", "first_checked"), ("send", b"*8D4840D6202C"), ("sleep", 0.3), ("close",), ("sleep", rng.choice([0.1, 0.5])), ("accept", 25.0)]
         elif disconnect == "retry_reset":
             # the server dies abortively (RST instead of FIN) and comes back
-            plan += [("sleep", 3.0), ("reset",), ("sleep", rng.choice([0.1, 0.5])), ("accept", 25.0)]
+            plan += [("wait_for", "first_checked"), ("reset",), ("sleep", rng.choice([0.1, 0.5])), ("accept", 25.0)]
         elif disconnect == "retry_backlog":
             # the server stays up but does not accept for longer than the client's 10 s connect timeout
-            plan += [("sleep", 3.0), ("close",), ("saturate", 13.0, 40.0)]
+            plan += [("wait_for", "first_checked"), ("close",), ("saturate", 13.0, 40.0)]
         else:
-            plan += [("sleep", 3.0), ("close",), ("sleep", rng.choice([0.1, 0.5, 2.0])), ("accept", 25.0)]
+            plan += [("wait_for", "first_checked"), ("close",), ("sleep", rng.choice([0.1, 0.5, 2.0])), ("accept", 25.0)]
         plan += [("send", d) for _, d, *_ in lines2] + [("mark", "feed2_done"), ("sleep", 60)]
     elif disconnect == "midline":
-        plan += [("sleep", 3.0), ("send", b"*8D4840D6202C"), ("sleep", 0.2), ("close",), ("sleep", 20)]
+        plan += [("wait_for", "first_checked"), ("send", b"*8D4840D6202C"), ("sleep", 0.2), ("close",), ("sleep", 20)]
     elif disconnect == "reset":
-        plan += [("sleep", 3.0), ("reset",), ("sleep", 20)]
+        plan += [("wait_for", "first_checked"), ("reset",), ("sleep", 20)]
     else:
-        plan += [("sleep", 3.0), ("close",), ("sleep", 20)]
+        plan += [("wait_for", "first_checked"), ("close",), ("sleep", 20)]
     cls = f"seg={seg_kind}|delay={delay_kind}|malformed={malformed}" + ("|limit_parsing" if limit else "")
     inp = {"client": "radar", "options": opts, "segmentation": seg_kind, "delay": delay_kind, "malformed": malformed, "disconnect": disconnect, "lines": [d.decode("latin1") for _, d, *_ in lines], "tag": tag}
     sess = session.RadarSession(binpath, plan, opts=opts, rows=40, cols=130, scratch=scratch)
@@ -428,16 +445,29 @@ def check_radar(col, binpath, rng, tag, seg_kind, delay_kind, malformed, disconn
             loc = sess.panic_location()
             col.add("C16", f"C16|radar_terminated|{cls}", f"radar exited (status {sess.p.p.returncode}, panic at {loc}) while the server was connected and no quit was requested", dict(inp, panic=loc))
             return
-        rows = parse_when_stable(sess)
-        if rows is None:
-            if not sess.p.alive():
-                loc = sess.panic_location()
-                col.add("C16", f"C16|radar_terminated|{cls}", f"radar exited (status {sess.p.p.returncode}, panic at {loc}) while the server was connected", dict(inp, panic=loc))
-                return
-            raise Inconclusive("Airplanes table not found on screen")
-        ok = compare_rows(col, rows, expect, cls, inp, "first_connection")
+        # A server that drops the connection while the client still works through a backlog (a big
+        # feed: radar reads 1 KiB per turn of its loop) is a history of its own: the first-connection
+        # snapshot cannot be taken (the reconnect follows the last line at once), the comparison after
+        # the reconnect covers both connections.
+        backlog = retrying and sum(len(d) for _, d, *_ in lines) > 100000
+        if backlog:
+            sess.srv.release("first_checked")
+            col.count("disconnects_with_backlog")
+            rows = None
+            ok = True
+            sess.key("F3")
+        else:
+            rows = parse_when_stable(sess)
+            sess.srv.release("first_checked")
+            if rows is None:
+                if not sess.p.alive():
+                    loc = sess.panic_location()
+                    col.add("C16", f"C16|radar_terminated|{cls}", f"radar exited (status {sess.p.p.returncode}, panic at {loc}) while the server was connected", dict(inp, panic=loc))
+                    return
+                raise Inconclusive("Airplanes table not found on screen")
+            ok = compare_rows(col, rows, expect, cls, inp, "first_connection")
         tc = sess.tab_title_count()
-        if ok and tc is not None and tc != len(expect) and not (malformed == "crlf" and tc == len(expect) + 1):
+        if ok and not backlog and tc is not None and tc != len(expect) and not (malformed == "crlf" and tc == len(expect) + 1):
             col.add("C16", f"C16|radar_count_mismatch|title|{cls}", f"tab title counts {tc} aircraft, {len(expect)} were sent", inp)
         # ---- disconnect behaviour
         if any(e[1] == "closed" for e in sess.srv.log) and not sess.p.alive() and disconnect != "retry":
@@ -458,7 +488,7 @@ def check_radar(col, binpath, rng, tag, seg_kind, delay_kind, malformed, disconn
                 raise Inconclusive("second connection not observed")
             for _, d, a, _ in lines2:
                 expect[a]["msgs"] += 1
-            rows = parse_when_stable(sess, sentinel_msgs=2)
+            rows = parse_when_stable(sess, sentinel_msgs=expect[SENTINEL]["msgs"])
             if rows is None:
                 raise Inconclusive("Airplanes table not found after reconnect")
             compare_rows(col, rows, expect, cls + ("" if disconnect == "retry" else f"|disc={disconnect}"), dict(inp, lines2=[d.decode() for _, d, *_ in lines2]), "after_reconnect_tracked_aircraft_kept")
@@ -525,7 +555,7 @@ def main(a, lcol, col, run_all, scratch, START):
         if m != "none":
             # the same malformed lines cut in the middle with pauses beyond the read timeout
             # (non-UTF-8 bytes late in a line: the cut must leave a valid head behind the pause)
-            sk = "cut_in_hex" if m in ("invalid_utf8", "non_ascii") else ["cut_in_hex", "random_cuts", "cut_after_star"][k % 3]
+            sk = "cut_in_hex" if m in ("invalid_utf8", "non_ascii") else "cut_before_tail" if m == "long_line_frame_tail" else ["cut_in_hex", "random_cuts", "cut_after_star"][k % 3]
             combos.append((sk, "gt_timeout", m))
     for sk in SEGMENTATIONS:
         for dk in DELAYS:
@@ -563,6 +593,6 @@ def main(a, lcol, col, run_all, scratch, START):
     col.sample({"scenario": "radar per_line/none/none", "what": "20-70 unique '*<hex>;' lines for 1-5 aircraft; per-aircraft Msgs column and last callsign compared after the feed; then server close -> exit status / terminal restored"})
     col.sample({"scenario": "1090 cut_in_hex/gt_timeout/none", "what": "every line cut in the middle of its hex digits with 70-150 ms pauses; stdout echo sequence must equal the sent sequence"})
     return vlib.finish(col, "C16", a.tier, a.seed, "fault_enumeration",
-        "each scenario = one fresh client process against a scripted TCP feed of unique '*<hex>;' lines: 9 segmentation kinds x 4 delay classes (below / around / above the 50 ms read timeout) x 19 malformed-line kinds (incl. near-miss framing of a decodable ghost frame: missing, doubled, misplaced markers) (each followed by sentinel lines) x 7 disconnect modes (close / close mid-line / abortive close (RST) / close+re-accept with --retry-tcp / drop mid-line + re-accept / RST + re-accept / server alive but not accepting for 13 s); 1090: stdout echo sequence == sent sequence, and the whole output == echo + the library's rendering of each well-formed frame (nothing else that looks like a frame); radar: per-aircraft Msgs column == lines sent, callsign == last identification line, tab title count, exit status and terminal state after a disconnect, counts continue after a reconnect; distinct_nontrivial = distinct (client, segmentation, delay, malformed, disconnect) cells run",
+        "each scenario = one fresh client process against a scripted TCP feed of unique '*<hex>;' lines: 10 segmentation kinds x 4 delay classes (below / around / above the 50 ms read timeout) x 20 malformed-line kinds (incl. near-miss framing of a decodable ghost frame: missing, doubled, misplaced markers; over-long lines up to 200 KB, also with a pause right before a tail that reads like a frame line) (each followed by sentinel lines) x 7 disconnect modes (close / close mid-line / abortive close (RST) / close+re-accept with --retry-tcp / drop mid-line + re-accept / RST + re-accept / server alive but not accepting for 13 s); 1090: stdout echo sequence == sent sequence, and the whole output == echo + the library's rendering of each well-formed frame (nothing else that looks like a frame); radar: per-aircraft Msgs column == lines sent, callsign == last identification line, tab title count, exit status and terminal state after a disconnect, counts continue after a reconnect; distinct_nontrivial = distinct (client, segmentation, delay, malformed, disconnect) cells run",
         ["delays are relative to a 50 ms timeout on a loaded machine: the number of mid-line pauses > 50 ms is what the plan requested, the property must hold for every schedule", "CRLF-terminated lines are not counted as well-formed lines"],
         a.verif, START, n, len(col.classes), extra={"fault_kinds": {"segmentations": SEGMENTATIONS, "delays": list(DELAYS), "malformed": malformed_kinds, "disconnect": ["close", "midline", "reset", "retry", "retry_midline", "retry_reset", "retry_backlog"]}}, min_evaluations=10)
